@@ -664,6 +664,20 @@ pub fn run(thorough: bool) -> i32 {
                 })
                 .collect()
         };
+        // the same packets with in-band FTI (L=21, E=8, B=2): what the receiver learnt from them must survive
+        // whatever the FDT says afterwards
+        let obj_pkts_fti: Vec<Vec<u8>> = {
+            let content = obj_bytes(21, 3);
+            (0..3)
+                .map(|j| {
+                    let mut sp = rfc::Spec::minimal(rfc::FEC_NOCODE, TSI, 5);
+                    sp.exts.push(rfc::fti_nocode(21, 8, 2));
+                    sp.payload_id = rfc::pid(rfc::FEC_NOCODE, (j / 2) as u32, (j % 2) as u32, 0, 8);
+                    sp.payload = content[j * 8..((j + 1) * 8).min(21)].to_vec();
+                    rfc::encode(&sp)
+                })
+                .collect()
+        };
         let mut xmls: Vec<String> = Vec::new();
         // (a) OTI attribute product at File level and at instance level
         let ids: Vec<Option<&str>> = vec![None, Some("0"), Some("1"), Some("2"), Some("5"), Some("6"), Some("129"), Some("7"), Some("255"), Some("256")];
@@ -671,7 +685,7 @@ pub fn run(thorough: bool) -> i32 {
         let es: Vec<&str> = vec!["0", "1", "8", "65535", "65536"];
         let ns: Vec<Option<&str>> = vec![None, Some("0"), Some("1"), Some("2"), Some("4"), Some("18446744073709551615")];
         let ssis: Vec<Option<&str>> = vec![None, Some(""), Some("AAAA"), Some("AAEAAQ=="), Some("AQABAQ=="), Some("CAE="), Some("IAE="), Some("!!!")];
-        let tls: Vec<&str> = if thorough { vec!["0", "1", "21", "65536", "9223372036854775808", "18446744073709551615"] } else { vec!["21", "18446744073709551615", "0"] };
+        let tls: Vec<&str> = if thorough { vec!["0", "1", "8", "17", "21", "65536", "9223372036854775808", "18446744073709551615"] } else { vec!["21", "18446744073709551615", "0", "8"] };
         for id in &ids {
             for b in &bs {
                 for e in &es {
@@ -779,8 +793,13 @@ pub fn run(thorough: bool) -> i32 {
                     h1.extend(obj_pkts.iter().map(|p| &p[..]));
                     let mut h2: Vec<&[u8]> = obj_pkts.iter().map(|p| &p[..]).collect();
                     h2.extend(f.iter().map(|p| &p[..]));
+                    // first symbol with in-band FTI, then the FDT, then the last block, then the rest
+                    let mut h3: Vec<&[u8]> = vec![&obj_pkts_fti[0][..]];
+                    h3.extend(f.iter().map(|p| &p[..]));
+                    h3.push(&obj_pkts_fti[2][..]);
+                    h3.push(&obj_pkts_fti[1][..]);
                     alloc::set_context(Some(format!("C04|{}", case_of(&h1))));
-                    for hist in [h1, h2] {
+                    for hist in [h1, h2, h3] {
                         let r = run_history(&hist, Some(&fu2), &mut g);
                         note(&mut found, r, &hist);
                     }
